@@ -263,6 +263,12 @@ func (x *Ctx) containerWriters(r *core.Result, rs *core.RuleStat, st *types.Stru
 				}
 				rs.Instances++
 				k := fnKey(fn) + ":" + field
+				if allowed[k] != kind {
+					// a private helper inherits the permission of its callers when all of them have it
+					if owner := x.soleOwner(fn, func(g *ssa.Function) bool { return allowed[fnKey(g)+":"+field] == kind }); owner != "" {
+						k = owner + ":" + field
+					}
+				}
 				if allowed[k] == kind {
 					rs.OK(1)
 					rs.Sample(k + ": " + kind)
@@ -412,4 +418,53 @@ func (x *Ctx) fieldNeverReadStale(st *types.Struct, idx int) bool {
 		}
 	}
 	return true
+}
+
+
+// soleOwner: fn is an unexported library function all of whose (transitive, in-library) callers satisfy ok — it
+// acts on their behalf. Returns the name of one such caller, "" otherwise.
+func (x *Ctx) soleOwner(fn *ssa.Function, ok func(*ssa.Function) bool) string {
+	w := x.W
+	seen := map[*ssa.Function]bool{}
+	owner := ""
+	var rec func(f *ssa.Function) bool
+	rec = func(f *ssa.Function) bool {
+		if ok(f) {
+			owner = fnKey(f)
+			return true
+		}
+		if seen[f] {
+			return true
+		}
+		seen[f] = true
+		if f.Object() == nil || f.Object().Exported() || !w.InLib(f) {
+			return false
+		}
+		node := w.CG().Nodes[f]
+		if node == nil || len(node.In) == 0 {
+			return false
+		}
+		n := 0
+		for _, e := range node.In {
+			c := e.Caller.Func
+			if c == nil {
+				return false
+			}
+			if !w.InLib(c) {
+				if c.Synthetic != "" {
+					continue
+				}
+				return false
+			}
+			n++
+			if !rec(c) {
+				return false
+			}
+		}
+		return n > 0
+	}
+	if rec(fn) {
+		return owner
+	}
+	return ""
 }
